@@ -466,8 +466,7 @@ func (r *SqlManager) transactionHelper(ctx context.Context, operation func(tx *g
 		if errManager != nil {
 			// Delete the DID Document versions
 			for _, change := range changes {
-				// will also remove changelog via cascade
-				if err := tx.Where("id = ?", change.DIDDocumentVersionID).Delete(&orm.DidDocument{}).Error; err != nil {
+				if err := rollbackChange(tx, change); err != nil {
 					return err
 				}
 			}
@@ -489,6 +488,19 @@ func (r *SqlManager) transactionHelper(ctx context.Context, operation func(tx *g
 	}
 	// then functional error
 	return errManager
+}
+
+// rollbackChange undoes a change that was not committed by all methods: it deletes the DID document version (the changelog entry is removed via cascade).
+// If the change was the creation of the DID, the DID itself is removed as well, otherwise the subject would keep pointing to DIDs without a document
+// and could never be created again.
+func rollbackChange(tx *gorm.DB, change orm.DIDChangeLog) error {
+	if err := tx.Where("id = ?", change.DIDDocumentVersionID).Delete(&orm.DidDocument{}).Error; err != nil {
+		return err
+	}
+	if change.Type == orm.DIDChangeCreated {
+		return tx.Where("id = ?", change.DIDDocumentVersion.DID.ID).Delete(&orm.DID{}).Error
+	}
+	return nil
 }
 
 // applyToDIDDocuments is a helper function that applies an operation to all DID documents of a subject (1 per did method).
@@ -583,8 +595,7 @@ func (r *SqlManager) Rollback(ctx context.Context) {
 			// if one failed, delete all document versions for this transaction_id
 			if !committed {
 				for _, change := range versionChanges {
-					err := tx.Where("id = ?", change.DIDDocumentVersionID).Delete(&orm.DidDocument{}).Error
-					if err != nil {
+					if err := rollbackChange(tx, change); err != nil {
 						return err
 					}
 				}
